@@ -1277,6 +1277,66 @@ func (h *Hist) step() {
 				h.W("write", f, nd)
 			}
 		}
+	case "revert-add-probe":
+		// a file put back to its committed bytes after a different version was staged, with a command in between that
+		// rewrites the branch file (or HEAD) but not the staging area: `add` must stage the current bytes, whatever was written when
+		f := h.randPath()
+		a, b := h.content(), append(h.content(), []byte("changed\n")...)
+		h.W("write", f, a)
+		h.X(tz, "add", f)
+		h.X(tz, "commit", "-m", "probe base")
+		if _, tracked := h.obs.Files[f]; tracked {
+			if r.chance(1, 3) {
+				h.X(tz, "rm", f)
+			} else {
+				h.W("write", f, b)
+				h.X(tz, "add", f)
+			}
+			switch r.intn(4) {
+			case 0:
+				h.X(tz, "reset", "--soft", "HEAD@{0}")
+			case 1:
+				h.X(tz, "switch", "-c", r.pick([]string{"px", "py", "pz"}))
+			case 2:
+				if cur, ok := h.obs.headBranch(); ok && len(h.g.Commits) > 0 {
+					h.X(tz, "update-ref", "refs/heads/"+cur, h.g.Commits[len(h.g.Commits)-1])
+				}
+			default:
+				h.X(tz, "branch", "-r", r.pick([]string{"rx", "ry"}))
+			}
+			h.W("write", f, a)
+			if r.chance(1, 3) {
+				h.X(tz, "add", ".")
+			} else {
+				h.X(tz, "add", f)
+			}
+			h.X(tz, "ls-files", "-s")
+			h.X(tz, "status")
+		}
+	case "update-ref-probe":
+		// `update-ref` moves the current branch to another commit without writing a reflog record and without touching the staging
+		// area: whatever reads "HEAD's commit" afterwards (restore --staged, status, log, commit) must read the branch file
+		if cur, ok := h.obs.headBranch(); ok && len(h.g.Commits) >= 2 {
+			h.X(tz, "update-ref", "refs/heads/"+cur, h.g.Commits[r.intn(len(h.g.Commits))])
+			switch r.intn(4) {
+			case 0:
+				if t, ok := h.pickTracked(); ok {
+					h.X(tz, "restore", "--staged", t)
+				} else {
+					h.X(tz, "restore", "--staged", ".")
+				}
+			case 1:
+				h.X(tz, "status")
+			case 2:
+				h.X(tz, "log", "-n", "3")
+			default:
+				h.W("write", h.randPath(), h.content())
+				h.X(tz, "add", ".")
+				h.X(tz, "commit", "-m", "after update-ref")
+			}
+			h.X(tz, "ls-files", "-s")
+			h.X(tz, "status")
+		}
 	case "switch-reset-probe":
 		// a reset whose position falls on (or just after) a record written by `switch` between branches at different commits:
 		// the commit `reflog` shows at HEAD@{n} is the one reset must install, whatever the record's other columns say
